@@ -78,6 +78,18 @@ func (p *Program) Package(path string) *packages.Package { return p.byPkg[path] 
 
 // FuncByName resolves "pkgpath.Func" or "pkgpath.(*T).Method" / "pkgpath.T.Method".
 func (p *Program) FuncByName(q string) *ssa.Function {
+	// anonymous function: <parent>$<n>[$<m>...]
+	if i := strings.LastIndex(q, "$"); i > 0 {
+		if parent := p.FuncByName(q[:i]); parent != nil {
+			want := q[strings.LastIndexAny(q[:i], ".)")+1:]
+			for _, a := range parent.AnonFuncs {
+				if a.Name() == want {
+					return a
+				}
+			}
+		}
+		return nil
+	}
 	// split package path from the rest: last '/' then first '.' after it
 	slash := strings.LastIndex(q, "/")
 	dot := strings.Index(q[slash+1:], ".")
@@ -123,6 +135,12 @@ func (p *Program) FuncByName(q string) *ssa.Function {
 
 // QualName is the inverse of FuncByName for functions with bodies.
 func QualName(f *ssa.Function) string {
+	if par := f.Parent(); par != nil {
+		n := f.Name()
+		if i := strings.Index(n, "$"); i >= 0 {
+			return QualName(par) + n[len(par.Name()):]
+		}
+	}
 	if f.Pkg == nil {
 		if f.Object() != nil && f.Object().Pkg() != nil {
 			return f.Object().Pkg().Path() + "." + relName(f)
